@@ -142,6 +142,11 @@ def check_truthful(ctx, facts, cfg):
     R = 'C06.b-truthful'
     RL = roles_mod.roles(facts)
 
+    arg_sites = []
+
+    def pseudo_site(path, canon_fields):
+        return {'k': 'struct', 'adt': 'Error', 'path': {'path': path}, 'fields': [], 'canon': canon_fields, 'line': 'argument:%s' % path.split('::')[-1]}
+
     def collect(inline):
         sites = []
 
@@ -159,11 +164,30 @@ def check_truthful(ctx, facts, cfg):
                         bound[m_['pat']['id']] = sn
                         deferred.add(id(sn))
 
+            # `self.add_shard(pos, shard, Error::X { .. })`: an error value handed to a private helper is judged where the
+            # helper returns it (the helper is walked in this caller's context, its parameter standing for the value)
+            for g_ in [fn] + [facts.fns[q] for q in inline if q in facts.fns]:
+                if not g_.hir:
+                    continue
+                for (m_, _) in core.hir_find(g_.hir, lambda m: m.get('k') in ('call', 'mcall')):
+                    pc = core.private_callee(facts, m_)
+                    if not pc:
+                        continue
+                    for a_ in pc[1]:
+                        sn = core.strip_refs(a_) if isinstance(a_, dict) else None
+                        if sn is not None and sn.get('k') == 'struct' and sn.get('adt') == 'Error' and id(sn) not in deferred:
+                            deferred.add(id(sn))
+                            arg_sites.append((pc[0], pseudo_site((sn['path'].get('path') or ''), None)))
+
             def visit(e, conds, env):
                 if e.get('k') == 'struct' and e.get('adt') == 'Error' and id(e) not in deferred:
                     sites.append((W.root_fn, W.cur_fn, e, conds, dict(env)))
                 elif e.get('k') == 'path' and e.get('res') == 'local' and e.get('id') in bound:
                     sites.append((W.root_fn, W.cur_fn, bound[e['id']], conds, dict(env)))
+                elif e.get('k') == 'path' and e.get('res') == 'local' and W.cur_fn is not W.root_fn:
+                    v_ = env.get(e.get('id'))
+                    if isinstance(v_, tuple) and v_ and v_[0] == 'struct' and re.search(r'(^|::)Error::\w+$', str(v_[1])):
+                        sites.append((W.root_fn, W.cur_fn, pseudo_site(v_[1], dict(v_[2])), conds, dict(env)))
             W = core.PathWalker(visit, facts, inline)
             return W
         for fn in facts.fns.values():
@@ -176,13 +200,15 @@ def check_truthful(ctx, facts, cfg):
     def judge_site(root, cur, e, conds, env):
         variant = (e['path'].get('path') or '').split('::')[-1]
         fields = {f['name']: RL.norm(core.inline_calls(hcanon(f['e'], env), facts), root.path) for f in e['fields']}
+        if e.get('canon'):
+            fields = {n_: RL.norm(core.inline_calls(c_, facts), root.path) for n_, c_ in e['canon'].items()}
         atoms = inlined_atoms(conds, env, facts, RL, root.path)
         cmps = [x for x in (cmp_atom(c, p) for c, p in atoms) if x]
         return variant, fields, atoms, judge(root, variant, fields, atoms, cmps, conds, env, RL)
 
     # pass 1: every site judged where it stands
     sites = collect(set())
-    variants_seen = {(e['path'].get('path') or '').split('::')[-1] for (_, _, e, _, _) in sites}
+    variants_seen = {(e['path'].get('path') or '').split('::')[-1] for (_, _, e, _, _) in sites} | {ps_['path']['path'].split('::')[-1] for _, ps_ in arg_sites}
     ctx.floor(R, 10, len(variants_seen), 'Error variants constructed somewhere', cfg=cfg)
     failing_helpers = set()
     results = []
@@ -191,6 +217,14 @@ def check_truthful(ctx, facts, cfg):
         results.append((root, cur, e, variant, fields, atoms, err))
         if err and (not root.reachable or root.kind == 'Closure'):
             failing_helpers.add(root.path)
+    seen_arg = set()
+    for (h_, ps_) in list(arg_sites):
+        if (h_.path, ps_['line']) in seen_arg:
+            continue
+        seen_arg.add((h_.path, ps_['line']))
+        results.append((h_, h_, ps_, ps_['path']['path'].split('::')[-1], {}, [], 'the value is handed to %s as an argument and has to be justified where that returns it' % core.short(h_.path)))
+        failing_helpers.add(h_.path)
+    del arg_sites[:]
     # pass 2: sites in private helpers / closures / error constructors that cannot be justified on their own are
     # re-judged in the context of every call site (helper body walked with the caller's conditions and arguments)
     ctx_results = {}
